@@ -20,13 +20,17 @@ impl<S: ToModel> ToModel for Tagged<S> {
     }
 }
 
-/// rule: a conversion probe fails iff its argument is a string starting with '!' or an odd
-/// integer >= 100 (looking through Option/Some)
+/// rule: a conversion probe fails iff its argument is a string starting with '!', an odd
+/// integer >= 100, `false`, a sequence whose first element fails, or the JSON null / []
+/// (looking through Option/Some)
 pub fn conv_fails(m: &M) -> bool {
     match m {
         M::Str(s) => s.starts_with('!'),
         M::Int(i) => *i >= 100 && i % 2 == 1,
         M::Some(x) => conv_fails(x),
+        M::Bool(b) => !*b,
+        M::Seq(v) => v.first().map(conv_fails).unwrap_or(false),
+        M::Json(t) => t == "null" || t == "[]",
         _ => false,
     }
 }
